@@ -728,6 +728,39 @@ def within(got, want, bound, exact):
     return True
 
 
+def model_specs(c):
+    """the specs of the transforms in the list after construction and after every operation (Python list semantics)"""
+    cur = [dict(x) for x in (c['tfs'] if c['start'] == 'new' else [k for k in c['kids'] if not isinstance(k, str)])]
+    out = [list(cur)]
+    for op in c['ops']:
+        k = op[0]
+        try:
+            if k == 'append':
+                cur.append(op[1])
+            elif k == 'insert':
+                cur.insert(op[1], op[2])
+            elif k in ('set', 'param'):
+                cur[op[1]] = op[2]
+            elif k == 'pop':
+                cur.pop() if op[1] is None else cur.pop(op[1])
+            elif k == 'del':
+                del cur[op[1]]
+            elif k == 'swap':
+                cur[op[1]], cur[op[2]] = cur[op[2]], cur[op[1]]
+            elif k == 'reverse':
+                cur.reverse()
+            elif k == 'clear':
+                del cur[:]
+            elif k == 'extend':
+                cur.extend(op[1])
+            elif k == 'assign':
+                cur = list(op[1])
+        except IndexError:
+            pass
+        out.append(list(cur))
+    return out
+
+
 def run_node(c):
     """execute a node case on the real code.
     Returns (answers, failure): answers[i] = (text, matrix|None, kfactors) per protocol line;
@@ -738,12 +771,23 @@ def run_node(c):
     except Exception as e:          # noqa
         return [('err ' + err_name(e), None, None)], (0, c['start'], 'building the node raised %s' % err_name(e))
 
+    specs = model_specs(c)
+
     def observed(step, label):
         text, m, mats = rn.observe()
         if m is None or any(x is None for x in mats):
             answers.append((text, None, None))
             return (step, label, 'Node.matrix is not a finite 4x4 array')
         answers.append((text, m, mats))
+        # every transform in the list still means what its parameters say (saving recomputes the matrices from them)
+        sp = specs[step] if step < len(specs) else None
+        if sp is not None and len(sp) == len(mats):
+            for i, (spec, tm) in enumerate(zip(sp, mats)):
+                tc = dict(spec, type='tf', route='ctor')
+                wrong = oracle_tf(tc, ('ok', flat(tm)))
+                if wrong and not oracle_tf(tc, real_tf(tc)):
+                    return (step, label, 'after %s transform %d of the node (%s %s) has a matrix that is not what its parameters mean: %s'
+                            % (label, i, TAG[spec['k']], spec['vals'], wrong[0][1]))
         want, bound, exact = product_bound(mats, [0] * len(mats))
         if not within(m, want, bound, exact):
             return (step, label, 'Node.matrix after %s is %s but the ordered product of its %d transforms is %s'
